@@ -178,10 +178,16 @@ func C14(c *Ctx) {
 		// provider consistency
 		prov := Arg(nfo, 1)
 		okProv := true
+		nProv := 0
 		for _, call := range c.userCalls(end, "PutOAuth2Provider") {
 			if Arg(call, 0) != prov {
 				okProv = false
+			} else if InstrDominates(call.(ssa.Instruction), sav.(ssa.Instruction)) {
+				nProv++
 			}
+		}
+		if nProv == 0 {
+			okProv = false // the provider must be recorded in the user before it is saved
 		}
 		// config look-up with the same provider
 		lookupOK := false
